@@ -96,9 +96,9 @@ impl<'a> V<'a> {
     fn handle_macro(&mut self, mac: &syn::Macro) {
         let name = mac.path.segments.last().map(|s| s.ident.to_string()).unwrap_or_default();
         match name.as_str() {
-            "quote" | "quote_spanned" => {
+            "quote" | "quote_spanned" | "parse_quote" | "parse_quote_spanned" => {
                 let mut tokens: Vec<TokenTree> = mac.tokens.clone().into_iter().collect();
-                if name == "quote_spanned" {
+                if name == "quote_spanned" || name == "parse_quote_spanned" {
                     // drop `span =>`
                     let mut cut = None;
                     for i in 0..tokens.len().saturating_sub(1) {
@@ -477,6 +477,49 @@ pub fn run(root: &str, outdir: &str) -> i32 {
     let rows: Vec<String> = bf.iter().map(|(f, p, k)| format!("  ({}, [{}], {})", lean_str(f), p.chars().map(|c| (c as u32).to_string()).collect::<Vec<_>>().join(", "), if k == "index" { 0 } else { 1 })).collect();
     writeln!(t, "{}\n]", rows.join(",\n")).unwrap();
     writeln!(t, "\ndef identNames : List String := [{}]", names.iter().map(|n| lean_str(n)).collect::<Vec<_>>().join(", ")).unwrap();
+    // ---- absolute paths (`::core::..`) named by the templates of each handler directory: what the generated code calls
+    let mut paths: BTreeMap<String, std::collections::BTreeSet<String>> = BTreeMap::new();
+    for (f, _, _, toks) in &out.templates {
+        let d = f.rsplit_once('/').map(|x| x.0.to_string()).unwrap_or_default();
+        let set = paths.entry(d).or_default();
+        let mut i = 0;
+        while i + 2 < toks.len() {
+            let colons = |k: usize| matches!((toks.get(k), toks.get(k + 1)), (Some(Tok::Punct(':')), Some(Tok::Punct(':'))));
+            // `::core::..` / `::std::..` / `::alloc::..` that does not continue a path (`a::core`, `<T>::core`)
+            let root = matches!(toks.get(i + 2), Some(Tok::Ident(id)) if id == "core" || id == "std" || id == "alloc");
+            let continues = i > 0 && match &toks[i - 1] {
+                Tok::Ident(id) => !KEYWORDS.contains(&id.as_str()),
+                Tok::Punct('>') => !(i > 1 && matches!(&toks[i - 2], Tok::Punct('-'))),
+                Tok::Punct(':') => true,
+                _ => false,
+            };
+            let abs = colons(i) && root && !continues;
+            if abs {
+                let mut j = i;
+                let mut p = String::new();
+                while colons(j) {
+                    if let Some(Tok::Ident(id)) = toks.get(j + 2) {
+                        p.push_str("::");
+                        p.push_str(id);
+                        j += 3;
+                    } else {
+                        break;
+                    }
+                }
+                if !p.is_empty() {
+                    set.insert(p);
+                }
+                i = j.max(i + 1);
+            } else {
+                i += 1;
+            }
+        }
+    }
+    for (d, set) in &paths {
+        let name = if d.is_empty() { "root".to_string() } else { d.replace('/', "_") };
+        writeln!(t, "\n/-- absolute paths named by the `quote!` templates of `{}` (sorted) -/\ndef paths_{} : List String := [{}]",
+            d, name, set.iter().map(|x| lean_str(x)).collect::<Vec<_>>().join(", ")).unwrap();
+    }
     writeln!(t, "\n/-- the same names as code points (the kernel compares numbers, not string literals) -/\ndef identCodes : List (List Nat) := [{}]",
         names.iter().map(|n| format!("[{}]", n.chars().map(|c| (c as u32).to_string()).collect::<Vec<_>>().join(", "))).collect::<Vec<_>>().join(", ")).unwrap();
     writeln!(t, "\nend Educe.Generated").unwrap();
